@@ -36,7 +36,7 @@ theorem builtin_primText (k : Prim) : builtinName (primText k) = some k := by ca
 set_option hygiene false in
 /-- the element's tree is used as a simple type -/
 macro "plain_case" : tactic =>
-  `(tactic| (simp only at h
+  `(tactic| (try simp only at h
              cases hs : asSimple c' with
              | mk p k =>
                simp only [hs, Option.some.injEq] at h
